@@ -315,7 +315,7 @@ def replay(ctx, case):
 
 MANIFEST = dict(
     text=("Proof: (widths) declared widths and the add_register allocation count, regenerated from the source, satisfy (s+1)2^(n-s)-1 and 2^n-1 for all n and "
-          "1<=s<=n, and s=n uses no ancilla (C11_bdsp_*, C11_dcsp_declared_allocated, C11_split_n_no_ancilla, C11_default_split); (measurement statistics) for every "
+          "1<=s<=n, and s=n uses no ancilla (C11_bdsp_*, C11_dcsp_declared_allocated, C11_split_n_no_ancilla, C11_default_split; C11_bdsp_width_bounds: n <= width <= 2^n - 1, C11_bdsp_width_step: raising the split never adds qubits); (measurement statistics) for every "
           "balanced angle tree with distinct qubits and any angles, the model's gate list run from |0..0> gives, summed over all ancillas, squared modulus = product of "
           "cos^2/sin^2 along the path on the output qubits - for the divide-and-conquer initializer (C11_dcsp_marginal) and for the bidirectional one with 1<=s<n, where "
           "the leaves are sub-registers prepared by arbitrary circuits local to them and contribute the squared amplitude of their state (C11_bdsp_marginal, premise: "
